@@ -1,0 +1,28 @@
+// SPDX-License-Identifier: BSL-1.1 OR Apache-2.0
+//! Verification hooks (cargo feature `neumann_verif`, off by default).
+//!
+//! A process-global callback slot. Instrumented code calls [`point`] with a static name at a
+//! few places between critical sections (schedule points) or between the steps of a
+//! multi-step durable operation (crash points). With no callback installed `point` is a no-op.
+
+use std::sync::RwLock;
+
+static CALLBACK: RwLock<Option<fn(&'static str)>> = RwLock::new(None);
+
+/// Install the callback invoked at every hook point.
+pub fn set(f: fn(&'static str)) {
+    *CALLBACK.write().unwrap_or_else(std::sync::PoisonError::into_inner) = Some(f);
+}
+
+/// Remove the callback.
+pub fn clear() {
+    *CALLBACK.write().unwrap_or_else(std::sync::PoisonError::into_inner) = None;
+}
+
+/// Called by instrumented code.
+pub fn point(name: &'static str) {
+    let f = *CALLBACK.read().unwrap_or_else(std::sync::PoisonError::into_inner);
+    if let Some(f) = f {
+        f(name);
+    }
+}
